@@ -822,4 +822,510 @@ theorem first_attempt_is_tablet_replica (cl : Cluster) (cfg : Config) (rq : Requ
         · exact Or.inr ⟨d, rfl, h2 hg1 hg2⟩
       · exact Or.inr ⟨d, rfl, rack_sub d r t (h1 hg1)⟩
 
+/-! ## 3. Ring tables: corollaries of C05 (`plan_order`, `plan_mem_iff`, `groups_described`, `classOf`) -/
+
+open ScyllaVerif.Props.C05 in
+private theorem describes_mem' {cl : Cluster} : ∀ {gs : List (List Target)} {ps : List (Bool × (Node → Bool))},
+    Describes cl gs ps → ∀ t, t ∈ gs.flatten ↔ ∃ bp ∈ ps, t = mk cl bp.1 t.1 ∧ bp.2 t.1 = true
+  | [], [], _, t => by simp
+  | [], _ :: _, h, _ => absurd h (by simp [Describes])
+  | _ :: _, [], h, _ => absurd h (by simp [Describes])
+  | g :: gs, (b, p) :: ps, h, t => by
+    obtain ⟨h1, h2⟩ := h
+    simp only [List.flatten_cons, List.mem_append, List.mem_cons, exists_eq_or_imp]
+    rw [h1 t, describes_mem' h2 t]
+
+open ScyllaVerif.Props.C05 in
+private theorem describes_take {cl : Cluster} : ∀ (k : Nat) {gs : List (List Target)} {ps : List (Bool × (Node → Bool))},
+    Describes cl gs ps → Describes cl (gs.take k) (ps.take k)
+  | 0, _, _, _ => by simp [Describes]
+  | _ + 1, [], [], _ => by simp [Describes]
+  | _ + 1, [], _ :: _, h => absurd h (by simp [Describes])
+  | _ + 1, _ :: _, [], h => absurd h (by simp [Describes])
+  | k + 1, g :: gs, (b, p) :: ps, h => by
+    simp only [List.take_succ_cons, Describes]
+    exact ⟨h.1, describes_take k h.2⟩
+
+open ScyllaVerif.Props.C05 in
+private theorem classIdx_lt_of_mem {n : Node} : ∀ {ps : List (Bool × (Node → Bool))} {k : Nat} {bp : Bool × (Node → Bool)},
+    bp ∈ ps.take k → bp.2 n = true → classIdx ps n < k
+  | [], k, bp, h, _ => by simp at h
+  | (b, p) :: ps, 0, bp, h, _ => by simp at h
+  | (b, p) :: ps, k + 1, bp, h, hb => by
+    simp only [List.take_succ_cons, List.mem_cons] at h
+    simp only [classIdx]
+    split
+    · omega
+    · rename_i hp
+      rcases h with rfl | h
+      · exact absurd hb hp
+      · have := classIdx_lt_of_mem h hb; omega
+
+open ScyllaVerif.Props.C05 in
+private theorem mem_of_classIdx_lt {n : Node} : ∀ {ps : List (Bool × (Node → Bool))} {k : Nat},
+    classIdx ps n < k → k ≤ ps.length → ∃ bp ∈ ps.take k, bp.2 n = true
+  | [], k, h, hk => by simp only [List.length_nil] at hk; omega
+  | (b, p) :: ps, 0, h, _ => by omega
+  | (b, p) :: ps, k + 1, h, hk => by
+    simp only [classIdx] at h
+    simp only [List.take_succ_cons, List.mem_cons, exists_eq_or_imp]
+    split at h
+    · rename_i hp; exact Or.inl hp
+    · have := mem_of_classIdx_lt (n := n) (ps := ps) (k := k) (by omega) (by simp only [List.length_cons] at hk; omega)
+      exact Or.inr this
+
+private theorem dedup_mem_prefix {A B : List Target} {t : Target} (h : t ∈ dedupFrom [] (A ++ B))
+    (hid : t.1.id ∈ A.map (·.1.id)) : t ∈ A := by
+  obtain ⟨seen', hs, happ⟩ := dedupFrom_append [] A B
+  rw [happ] at h
+  rcases List.mem_append.mp h with h | h
+  · exact (mem_dedupFrom h).1
+  · exact absurd ((hs _).mpr (Or.inr hid)) (mem_dedupFrom h).2
+
+open ScyllaVerif.Props.C05 in
+/-- If some node is in one of the first `k ≤ 3` (replica) groups, the plan starts with a member of those groups, and
+that first target carries the shard computed for its node. Corollary of C05 `plan_order` + `plan_mem_iff`. -/
+private theorem head_in_first_groups {cl : Cluster} (hwf : WF cl) (cfg : Config) (rq : Request) (ρp : RhoPick) (ρf : RhoFb)
+    (k : Nat) (hk : k ≤ 3) (n : Node) (hn : ∃ bp ∈ (groupPreds cl cfg rq).take k, bp.2 n = true) :
+    ∃ t, (plan cl cfg rq ρp ρf).head? = some t ∧ t = sharded cl t.1 ∧
+      ∃ bp ∈ (groupPreds cl cfg rq).take k, bp.2 t.1 = true := by
+  have hlen : (groupPreds cl cfg rq).length = 8 := rfl
+  have hb : ∀ bp ∈ (groupPreds cl cfg rq).take k, bp.1 = true := by
+    intro bp hbp
+    have : bp ∈ (groupPreds cl cfg rq).take 3 := (List.take_sublist_take_left hk).subset hbp  
+    simp only [groupPreds, List.take_succ_cons, List.take_zero, List.mem_cons, List.not_mem_nil, or_false] at this
+    rcases this with rfl | rfl | rfl <;> rfl
+  have hdesc := groups_described cl cfg rq ρf
+  have hdk := describes_take k hdesc
+  -- the chain split after the first k groups
+  have hsplit : (fallbackGroups cl cfg rq ρf).flatten =
+      ((fallbackGroups cl cfg rq ρf).take k).flatten ++ ((fallbackGroups cl cfg rq ρf).drop k).flatten := by
+    rw [← List.flatten_append, List.take_append_drop]
+  have hA : ∀ x : Node, (∃ bp ∈ (groupPreds cl cfg rq).take k, bp.2 x = true) →
+      sharded cl x ∈ ((fallbackGroups cl cfg rq ρf).take k).flatten := by
+    intro x ⟨bp, hbp, hx⟩
+    rw [describes_mem' hdk]
+    refine ⟨bp, hbp, ?_, hx⟩
+    rw [hb bp hbp]; rfl
+  have inA : ∀ t : Target, t ∈ fallback cl cfg rq ρf → (∃ bp ∈ (groupPreds cl cfg rq).take k, bp.2 t.1 = true) →
+      t ∈ ((fallbackGroups cl cfg rq ρf).take k).flatten := by
+    intro t ht hbp
+    rw [fallback_eq_dedup, hsplit] at ht
+    exact dedup_mem_prefix ht (List.mem_map.mpr ⟨_, hA t.1 hbp, rfl⟩)
+  -- some target with n's host id is in the plan
+  have hin : sharded cl n ∈ (fallbackGroups cl cfg rq ρf).flatten := by
+    rw [hsplit]; exact List.mem_append_left _ (hA n hn)
+  have hc := dedupFrom_complete (seen := []) hin
+  simp only [List.not_mem_nil, false_or] at hc
+  obtain ⟨u, hu, hid⟩ := List.mem_map.mp hc
+  rw [← fallback_eq_dedup] at hu
+  have huA : u ∈ ((fallbackGroups cl cfg rq ρf).take k).flatten := by
+    have hu' := hu
+    rw [fallback_eq_dedup, hsplit] at hu'
+    exact dedup_mem_prefix hu' (List.mem_map.mpr ⟨_, hA n hn, hid.symm⟩)
+  obtain ⟨bpu, hbpu, _, hpu⟩ := (describes_mem' hdk u).mp huA
+  have hcu : classOf cl cfg rq u.1 < k := classIdx_lt_of_mem hbpu hpu
+  have hup : u ∈ plan cl cfg rq ρp ρf := (plan_mem_iff hwf cfg rq ρp ρf u).mpr hu
+  have hord := plan_order hwf cfg rq ρp ρf
+  cases hpl : plan cl cfg rq ρp ρf with
+  | nil => rw [hpl] at hup; cases hup
+  | cons h rest =>
+    rw [hpl] at hup hord
+    have hch : classOf cl cfg rq h.1 < k := by
+      rcases List.mem_cons.mp hup with rfl | hur
+      · exact hcu
+      · have := (List.pairwise_cons.mp hord).1 u hur
+        omega
+    have hbph := mem_of_classIdx_lt hch (by rw [hlen]; omega)
+    have hhf : h ∈ fallback cl cfg rq ρf :=
+      (plan_mem_iff hwf cfg rq ρp ρf h).mp (by rw [hpl]; exact List.mem_cons_self)
+    obtain ⟨bph, hbph', he, _⟩ := (describes_mem' hdk h).mp (inA h hhf hbph)
+    refine ⟨h, rfl, ?_, hbph⟩
+    rw [hb bph hbph'] at he
+    exact he
+
+private theorem rack_sub_dc {cl : Cluster} {ts : Strategy × Int} {d r : Nat} {det : Bool} {n : Node}
+    (h : n ∈ filteredReplicas cl ts (.dcRack d r) det) : n ∈ filteredReplicas cl ts (.dc d) det := by
+  unfold filteredReplicas at h ⊢
+  have e : replicaSet cl ts (.dcRack d r) = replicaSet cl ts (.dc d) := rfl
+  rw [e] at h
+  simp only [List.mem_filter, Bool.and_eq_true] at h ⊢
+  exact ⟨h.1, h.2.1, by simp [rackOk]⟩
+
+open ScyllaVerif.Props.C05 in
+/-- **First attempt on a ring table** (corollary of C05 `plan_order` / `plan_mem_iff` / `groups_described` and, through
+them, of C04): for every well-formed cluster, policy configuration, token-aware request (`tokenWithStrategy = some
+(strategy, token)`) and ALL random choices, with `live crit` = the replicas of the token under the keyspace's strategy
+(C04: `simple_eq_spec` / `nts_eq_spec` say these are the servers' replicas) that are enabled and connected:
+ * a datacenter `d` is preferred and holds a live replica → the plan starts with a live replica of `d`;
+ * no datacenter is preferred, or failover is permitted, and a live replica exists → the plan starts with a live
+   replica (of the preferred datacenter whenever it has one - first item);
+in both cases the target carries `Some(shard)`, the shard of the token under the TARGET node's sharder (`cl.sh`). -/
+theorem first_attempt_is_replica {cl : Cluster} (hwf : WF cl) (cfg : Config) (rq : Request) (ρp : RhoPick) (ρf : RhoFb)
+    {ts : Strategy × Int} (hts : tokenWithStrategy cl cfg rq = some ts) :
+    (∀ d, (preference cfg rq).datacenter = some d → filteredReplicas cl ts (.dc d) rq.routeAsLwt ≠ [] →
+      ∃ t, (plan cl cfg rq ρp ρf).head? = some t ∧ t = sharded cl t.1 ∧
+        t.1 ∈ filteredReplicas cl ts (.dc d) rq.routeAsLwt) ∧
+    (((preference cfg rq).datacenter = none ∨ cfg.failover = true) →
+      filteredReplicas cl ts .any rq.routeAsLwt ≠ [] →
+      ∃ t, (plan cl cfg rq ρp ρf).head? = some t ∧ t = sharded cl t.1 ∧
+        (t.1 ∈ filteredReplicas cl ts .any rq.routeAsLwt ∨
+          ∃ d, (preference cfg rq).datacenter = some d ∧ t.1 ∈ filteredReplicas cl ts (.dc d) rq.routeAsLwt)) := by
+  refine ⟨?_, ?_⟩
+  · intro d hd hlive
+    obtain ⟨n, hn⟩ := List.exists_mem_of_ne_nil _ hlive
+    have hex : ∃ bp ∈ (groupPreds cl cfg rq).take 2, bp.2 n = true := by
+      refine ⟨_, by simp only [groupPreds, List.take_succ_cons, List.take_zero]; exact List.mem_cons_of_mem _ List.mem_cons_self, ?_⟩
+      simp only [hts, hd, decide_eq_true_eq]
+      exact hn
+    obtain ⟨t, hh, hs, bp, hbp, hpt⟩ := head_in_first_groups hwf cfg rq ρp ρf 2 (by omega) n hex
+    refine ⟨t, hh, hs, ?_⟩
+    simp only [groupPreds, List.take_succ_cons, List.take_zero, List.mem_cons, List.not_mem_nil, or_false] at hbp
+    rcases hbp with rfl | rfl
+    · simp only [hts] at hpt
+      cases hp : preference cfg rq with
+      | any => rw [hp] at hpt; simp at hpt
+      | dc d' => rw [hp] at hpt; simp at hpt
+      | dcRack d' r =>
+        rw [hp] at hpt hd
+        simp only [decide_eq_true_eq] at hpt
+        simp only [Pref.datacenter, Option.some.injEq] at hd
+        subst hd
+        exact rack_sub_dc hpt
+    · simp only [hts, hd, decide_eq_true_eq] at hpt
+      exact hpt
+  · intro hperm hlive
+    obtain ⟨n, hn⟩ := List.exists_mem_of_ne_nil _ hlive
+    have hgate : ((preference cfg rq).datacenter.isNone || failoverPossible cfg rq) = true := by
+      rcases hperm with h | h
+      · simp [h]
+      · cases hd : (preference cfg rq).datacenter with
+        | none => simp
+        | some d => simp [failoverPossible, hd, h]
+    have hex : ∃ bp ∈ (groupPreds cl cfg rq).take 3, bp.2 n = true := by
+      refine ⟨_, by
+        simp only [groupPreds, List.take_succ_cons, List.take_zero]
+        exact List.mem_cons_of_mem _ (List.mem_cons_of_mem _ List.mem_cons_self), ?_⟩
+      simp only [hts, hgate, Bool.true_and, decide_eq_true_eq]
+      exact hn
+    obtain ⟨t, hh, hs, bp, hbp, hpt⟩ := head_in_first_groups hwf cfg rq ρp ρf 3 (by omega) n hex
+    refine ⟨t, hh, hs, ?_⟩
+    simp only [groupPreds, List.take_succ_cons, List.take_zero, List.mem_cons, List.not_mem_nil, or_false] at hbp
+    rcases hbp with rfl | rfl | rfl
+    · simp only [hts] at hpt
+      cases hp : preference cfg rq with
+      | any => rw [hp] at hpt; simp at hpt
+      | dc d' => rw [hp] at hpt; simp at hpt
+      | dcRack d' r =>
+        rw [hp] at hpt
+        simp only [decide_eq_true_eq] at hpt
+        exact Or.inr ⟨d', by simp [Pref.datacenter], rack_sub_dc hpt⟩
+    · simp only [hts] at hpt
+      cases hd : (preference cfg rq).datacenter with
+      | none => rw [hd] at hpt; simp at hpt
+      | some d =>
+        rw [hd] at hpt
+        simp only [decide_eq_true_eq] at hpt
+        exact Or.inr ⟨d, rfl, hpt⟩
+    · simp only [hts, Bool.and_eq_true, decide_eq_true_eq] at hpt
+      exact Or.inl hpt.2
+
+/-! ## 4. The shard of the first attempt (C11) -/
+
+/-- **Shard of a ring replica target**: `with_computed_shard` evaluates the token under the sharder of THE TARGET NODE
+(`rc.sharder id`), 0 for a node without sharder; for a ScyllaDB node (`msb_ignore < 64`, token an `i64`) it is ScyllaDB's
+algorithm `shardOfSpec` on that node's `nr_shards` / `msb_ignore` and lies below `nr_shards` (C11
+`shardOfImpl_eq_spec`, `shardOfImpl_lt`). -/
+theorem first_attempt_shard (rc : RCluster) (tok : Int) (id : Nat) :
+    (rc.toCluster (some tok)).sh id = computedShard (rc.sharder id) tok ∧
+    (rc.sharder id = none → (rc.toCluster (some tok)).sh id = 0) ∧
+    (∀ s, rc.sharder id = some s →
+      (0 < s.nr → (rc.toCluster (some tok)).sh id < s.nr) ∧
+      (s.msb.toNat < 64 → -2 ^ 63 ≤ tok → tok < 2 ^ 63 →
+        (rc.toCluster (some tok)).sh id = Sharding.shardOfSpec s.nr s.msb.toNat tok)) := by
+  refine ⟨rfl, ?_, ?_⟩
+  · intro h; simp [RCluster.toCluster, computedShard, h]
+  · intro s h
+    simp only [RCluster.toCluster, computedShard, h, Option.getD_some]
+    refine ⟨fun hn => C11.shardOfImpl_lt s.nr s.msb _ hn, ?_⟩
+    intro hm h1 h2
+    rw [C11.shardOfImpl_eq_spec s.nr s.msb _ hm, Int64.toInt_ofInt_of_le h1 h2]
+
+/-- A target without shard (not a replica) gets a random shard of ITS node: below `nr_shards` (0 for an unsharded
+node) whatever the draw. -/
+theorem first_attempt_random_shard (rc : RCluster) (n : Node) (draw : Nat) :
+    (firstAttempt rc [(n, none)] draw).map (·.shard) =
+      some (draw % ((rc.sharder n.id).map (·.nr)).getD 1) ∧
+    (∀ s, rc.sharder n.id = some s → 0 < s.nr → draw % ((rc.sharder n.id).map (·.nr)).getD 1 < s.nr) := by
+  refine ⟨rfl, ?_⟩
+  intro s hs hn
+  simp only [hs, Option.map_some, Option.getD_some]
+  exact Nat.mod_lt _ hn
+
+example : computedShard (some ⟨4, 12⟩) 9223372036854775807 = 3 ∧ computedShard none 5 = 0 ∧
+    Sharding.shardOfSpec 4 12 9223372036854775807 = 3 := by decide
+
+/-! ## 5. Tablets override the ring (C15) -/
+
+/-- **Tablets first.** A table the tablet map knows (even with no tablet learnt yet) is never routed by the ring: its
+plan is the policy run over the replicas of the tablet covering the token; every other table is routed by the C05
+plan over the ring. -/
+theorem tablet_overrides_ring (rc : RCluster) (cfg : Config) (r : RRequest) (ρp : RhoPick) (ρf : RhoFb) :
+    (∀ xs, tabletsOf rc r = some xs →
+      routePlan rc cfg r ρp ρf =
+        planT (rc.toCluster r.rq.token) cfg r.rq (tabletReplicas rc xs (r.rq.token.getD 0)) ρp ρf) ∧
+    (tabletsOf rc r = none → routePlan rc cfg r ρp ρf = plan (rc.toCluster r.rq.token) cfg r.rq ρp ρf) := by
+  unfold routePlan
+  refine ⟨?_, ?_⟩
+  · intro xs h; simp only [h]
+  · intro h; simp only [h]
+
+/-- **Which tablet** (corollary of C15 `lookup_refines` / `lookup_never_stale` / `dc_restrict`): after ANY history of
+learnt tablets and maintenance steps, the replicas handed to the policy are those of the tablet the history
+specification names for the token - the latest learnt tablet covering it, unless a later one overlapped it or
+maintenance discarded it (then none: the request is routed like a token-unaware one) - each with the shard THAT tablet
+names; the per-datacenter list is the order-preserving filter of the full list. -/
+theorem tablet_replicas_refine (rc : RCluster) (hist : List C15.Op) (hv : C15.ValidHist hist)
+    (hdc : ∀ t, C15.Op.insert t ∈ hist → C15.DcOk t) (tok : Int) :
+    tabletReplicas rc (C15.run hist).tablets tok none =
+      (((C15.lookupSpec hist tok).map (·.replicas.all)).getD []).filterMap (resolve rc.peers) ∧
+    (∀ d, tabletReplicas rc (C15.run hist).tablets tok (some d) =
+      ((((C15.lookupSpec hist tok).map (·.replicas.all)).getD []).filter
+        (fun p => decide (p.1.dc = some (dcName d)))).filterMap (resolve rc.peers)) ∧
+    (∀ u, Tablets.tabletForToken (C15.run hist).tablets tok = some u → u.first ≤ tok ∧ tok ≤ u.last) := by
+  refine ⟨?_, ?_, ?_⟩
+  · simp only [tabletReplicas, Tablets.replicasForToken, C15.lookup_refines hist hv]
+  · intro d
+    simp only [tabletReplicas, C15.dc_restrict hist hv hdc, Tablets.replicasForToken, C15.lookup_refines hist hv]
+    cases C15.lookupSpec hist tok <;> rfl
+  · intro u hu
+    have := C15.lookup_never_stale hist hv tok u hu
+    exact ⟨this.1, this.2.1⟩
+
+/-- Every datacenter-restricted tablet replica is a replica of the tablet (same node, same shard). -/
+theorem tablet_dc_replicas_subset (rc : RCluster) (hist : List C15.Op) (hv : C15.ValidHist hist)
+    (hdc : ∀ t, C15.Op.insert t ∈ hist → C15.DcOk t) (tok : Int) (d : Nat) (r : SRep)
+    (h : r ∈ tabletReplicas rc (C15.run hist).tablets tok (some d)) :
+    r ∈ tabletReplicas rc (C15.run hist).tablets tok none := by
+  obtain ⟨h0, hd, _⟩ := tablet_replicas_refine rc hist hv hdc tok
+  rw [hd d] at h
+  rw [h0]
+  obtain ⟨x, hx, hr⟩ := List.mem_filterMap.mp h
+  obtain ⟨hx1, _⟩ := List.mem_filter.mp hx
+  exact List.mem_filterMap.mpr ⟨x, hx1, hr⟩
+
+/-! ## 6. "Live replica" spelled out (C04), the token (C03), and the composed statement -/
+
+private theorem ts_mem_keyspaces {cl : Cluster} {cfg : Config} {rq : Request} {ts : Strategy × Int}
+    (hts : tokenWithStrategy cl cfg rq = some ts) : ts.1 ∈ cl.keyspaces ∧ rq.token = some ts.2 := by
+  unfold tokenWithStrategy at hts
+  split at hts
+  · cases hts
+  · split at hts
+    · rename_i tok ks ht hk
+      obtain ⟨s, hs, rfl⟩ := Option.map_eq_some_iff.mp hts
+      exact ⟨List.mem_of_getElem? hs, ht⟩
+    · cases hts
+
+open ScyllaVerif.Props.C05 in
+/-- **What `live` means** (corollary of C04 `views_agree`): the targets of the two theorems above are exactly the nodes
+of the replica set `ReplicaLocator::replicas_for_token(token, keyspace strategy, datacenter)` - which C04 proves equal
+to the servers' placement rule - that are enabled and connected (and in the preferred rack when the criterion names
+one), whether the policy walks the set in ring order (LWT) or not. -/
+theorem live_replicas_are_replicas {cl : Cluster} (hwf : WF cl) {cfg : Config} {rq : Request} {ts : Strategy × Int}
+    (hts : tokenWithStrategy cl cfg rq = some ts) (crit : Pref) (det : Bool) (n : Node) :
+    n ∈ filteredReplicas cl ts crit det ↔
+      n ∈ (replicasForToken cl.loc ts.2 ts.1 crit.datacenter).iter cl.loc ∧ cl.alive n = true ∧ rackOk crit n = true := by
+  obtain ⟨r, S, hs, hloc⟩ := hwf.locator
+  have hk : ∀ repf, ts.1 = .nts repf → (repf.map (·.1)).Nodup := by
+    intro repf h
+    exact hwf.ntsKeys repf (h ▸ (ts_mem_keyspaces hts).1)
+  have hv := C04.views_agree hs S ts.2 ts.1 hk crit.datacenter
+  simp only [] at hv
+  rw [← hloc] at hv
+  unfold filteredReplicas replicaSet
+  simp only [List.mem_filter, Bool.and_eq_true]
+  cases det with
+  | true => simp only [if_true]; rw [hv.2.2.1.mem_iff]
+  | false => simp only [Bool.false_eq_true, if_false]
+
+/-- **The token is the servers' token** (re-export of C03 `token_formula`, so that the statement reads end to end):
+the `token` of the `RoutingInfo` of a prepared statement whose partition-key markers are `wire` (any order) and whose
+key components are bound to `comps` is Cassandra's Murmur3 token of the serialized key (the CDC token for the CDC
+partitioner), never `i64::MIN`. -/
+theorem token_is_servers_token (cdc : Bool) (wire : List Nat) (values : List PartitionKey.RawValue)
+    (comps : List (List UInt8)) (hne : wire ≠ []) (hnd : wire.Nodup) (hlt : ∀ ix ∈ wire, ix < values.length)
+    (hv : values.length ≤ 65535) (hbound : C03.keyOf wire values = comps.map some)
+    (hsmall : 2 ≤ comps.length → ∀ c ∈ comps, c.length ≤ 65535) :
+    PartitionKey.calculateToken cdc (PartitionKey.pkIndexesOfWire wire) values =
+      .ok (some (if cdc then Murmur3.cdcSpec (PartitionKey.encodeKey comps)
+        else Murmur3.murmur3Spec (PartitionKey.encodeKey comps))) ∧
+    Murmur3.murmur3Spec (PartitionKey.encodeKey comps) ≠ Int64.minValue :=
+  ⟨C03.token_formula cdc wire values comps hne hnd hlt hv hbound hsmall, C03.murmur3Spec_ne_min _⟩
+
+/-- The live replicas of the request's token as plan targets `(node, Some(shard))`, whichever map routes the table:
+the covering tablet's replicas with the tablet's shards, or the ring replicas with the shard of the token under each
+node's own sharder. -/
+def liveReplicaTargets (rc : RCluster) (cfg : Config) (r : RRequest) (crit : Pref) : List Target :=
+  let cl := rc.toCluster r.rq.token
+  match tabletsOf rc r with
+  | some xs => liveTargetsT cl (tabletReplicas rc xs (r.rq.token.getD 0)) crit
+  | none =>
+    match tokenWithStrategy cl cfg r.rq with
+    | some ts => (filteredReplicas cl ts crit r.rq.routeAsLwt).map (sharded cl)
+    | none => []
+
+/-- What can be said of the connection an attempt for `shard` travels on, given the pool its node published. -/
+def ConnectionOk (p : PoolConns) (shard : Nat) : Prop :=
+  ∀ ρ : PoolRho, ∃ c, connectionForShard p shard ρ = some c ∧
+    match p with
+    | .notSharded l => c ∈ l
+    | .sharded s b => sharderOf c = some s ∧ shardIdOf c < s.nr ∧
+        ∀ bucket, shard < 65536 → b[shard]? = some bucket → bucket ≠ [] → shardIdOf c = shard
+
+theorem connectionOk_of_poolOk (p : PoolConns) (hp : PoolOk p) (shard : Nat) : ConnectionOk p shard := by
+  intro ρ
+  cases p with
+  | notSharded l =>
+    obtain ⟨c, he, hc⟩ := connection_for_shard_total _ hp shard ρ
+    exact ⟨c, he, hc⟩
+  | sharded s b =>
+    obtain ⟨c, he, h1, h2, h3⟩ := connection_shard s b hp shard ρ
+    exact ⟨c, he, h1, h2, h3⟩
+
+open ScyllaVerif.Props.C05 in
+/-- **The composed statement (C12).** For every cluster (`WF`: what `ClusterState::new` builds), every policy
+configuration, every token-aware request (token present, keyspace known, policy token-aware) on a ring table or a
+tablet table, ALL random choices of `pick` / `fallback` (`ρp`, `ρf`), of the shard fill-in (`draw`) and of the pool
+(`ρ` inside `ConnectionOk`), and every pool state the refiller can have published for the target node (`evts` = any
+sequence of ready / broken connections):
+ 1. if the preferred datacenter holds a live replica of the token, the first attempt goes to one of them;
+ 2. if no datacenter is preferred or failover is permitted and some replica is live, the first attempt goes to a live
+    replica (a preferred-datacenter one whenever one is live: item 1);
+ 3. in both cases the attempt carries the replica's shard - the covering TABLET's shard for a tablet table, the shard
+    of the token under the target node's own sharder otherwise - and
+ 4. it travels on a connection the server bound to exactly that shard whenever the node's pool holds one (otherwise on
+    some pooled connection of that node); selecting the connection never panics. -/
+theorem route_first_attempt (rc : RCluster) (cfg : Config) (r : RRequest) (ρp : RhoPick) (ρf : RhoFb) (draw : Nat)
+    (hwf : WF (rc.toCluster r.rq.token)) (haware : tokenAware (rc.toCluster r.rq.token) cfg r.rq = true) :
+    let first := firstAttempt rc (routePlan rc cfg r ρp ρf) draw
+    let good := fun (a : Attempt) (L : List Target) =>
+      (a.node, some a.shard) ∈ L ∧
+      ∀ (size : PoolSize) (evts : List PoolEvt) (rf : Refiller) (p : PoolConns),
+        (Refiller.init size).run evts = some rf → rf.shared = some p → ConnectionOk p a.shard
+    (∀ d, (preference cfg r.rq).datacenter = some d → liveReplicaTargets rc cfg r (.dc d) ≠ [] →
+      ∃ a, first = some a ∧ good a (liveReplicaTargets rc cfg r (.dc d))) ∧
+    (((preference cfg r.rq).datacenter = none ∨ cfg.failover = true) → liveReplicaTargets rc cfg r .any ≠ [] →
+      ∃ a, first = some a ∧
+        (good a (liveReplicaTargets rc cfg r .any) ∨
+          ∃ d, (preference cfg r.rq).datacenter = some d ∧ good a (liveReplicaTargets rc cfg r (.dc d)))) := by
+  intro first good
+  -- the pool half: whatever pool was published, it is well-filed
+  have pool : ∀ shard (size : PoolSize) (evts : List PoolEvt) (rf : Refiller) (p : PoolConns),
+      (Refiller.init size).run evts = some rf → rf.shared = some p → ConnectionOk p shard := by
+    intro shard size evts rf p hrun hsh
+    exact connectionOk_of_poolOk p ((pool_filing_invariant size evts rf hrun).shared p hsh) shard
+  -- a sharded head target becomes the attempt (node, that shard)
+  have attempt : ∀ (t : Target) (sh : Nat), (routePlan rc cfg r ρp ρf).head? = some t → t.2 = some sh →
+      first = some ⟨t.1, sh⟩ := by
+    intro t sh hh hs
+    simp only [first, firstAttempt, hh, Option.map_some, hs, Option.getD_some]
+  have mk_good : ∀ (t : Target) (L : List Target), (routePlan rc cfg r ρp ρf).head? = some t → t ∈ L →
+      (∃ sh, t.2 = some sh) → ∃ a, first = some a ∧ good a L := by
+    intro t L hh hL ⟨sh, hs⟩
+    refine ⟨⟨t.1, sh⟩, attempt t sh hh hs, ?_, fun size evts rf p h1 h2 => pool sh size evts rf p h1 h2⟩
+    have : t = (t.1, some sh) := by rw [← hs]
+    rw [← this]; exact hL
+  cases htab : tabletsOf rc r with
+  | some xs =>
+    have hplan := (tablet_overrides_ring rc cfg r ρp ρf).1 xs htab
+    obtain ⟨h1, h2⟩ := first_attempt_is_tablet_replica (rc.toCluster r.rq.token) cfg r.rq
+      (tabletReplicas rc xs (r.rq.token.getD 0)) ρp ρf haware
+    have hsh : ∀ crit t, t ∈ liveTargetsT (rc.toCluster r.rq.token) (tabletReplicas rc xs (r.rq.token.getD 0)) crit →
+        ∃ sh, t.2 = some sh := by
+      intro crit t ht
+      obtain ⟨x, _, rfl⟩ := List.mem_map.mp ht
+      exact ⟨x.2, rfl⟩
+    simp only [liveReplicaTargets, htab]
+    refine ⟨?_, ?_⟩
+    · intro d hd hne
+      obtain ⟨t, hh, ht, _⟩ := h1 d hd hne
+      exact mk_good t _ (by rw [hplan]; exact hh) ht (hsh _ t ht)
+    · intro hperm hne
+      obtain ⟨t, hh, ht⟩ := h2 hperm hne
+      rcases ht with ht | ⟨d, hd, ht⟩
+      · obtain ⟨a, ha, hg⟩ := mk_good t _ (by rw [hplan]; exact hh) ht (hsh _ t ht)
+        exact ⟨a, ha, Or.inl hg⟩
+      · obtain ⟨a, ha, hg⟩ := mk_good t _ (by rw [hplan]; exact hh) ht (hsh _ t ht)
+        exact ⟨a, ha, Or.inr ⟨d, hd, hg⟩⟩
+  | none =>
+    have hplan := (tablet_overrides_ring rc cfg r ρp ρf).2 htab
+    cases hts : tokenWithStrategy (rc.toCluster r.rq.token) cfg r.rq with
+    | none => simp [tokenAware, hts] at haware
+    | some ts =>
+      obtain ⟨h1, h2⟩ := first_attempt_is_replica hwf cfg r.rq ρp ρf hts
+      simp only [liveReplicaTargets, htab, hts]
+      have ne_of : ∀ crit, (filteredReplicas (rc.toCluster r.rq.token) ts crit r.rq.routeAsLwt).map
+          (sharded (rc.toCluster r.rq.token)) ≠ [] → filteredReplicas (rc.toCluster r.rq.token) ts crit r.rq.routeAsLwt ≠ [] := by
+        intro crit h hc; rw [hc] at h; exact h rfl
+      have mem_of : ∀ crit (t : Target), t = sharded (rc.toCluster r.rq.token) t.1 →
+          t.1 ∈ filteredReplicas (rc.toCluster r.rq.token) ts crit r.rq.routeAsLwt →
+          t ∈ (filteredReplicas (rc.toCluster r.rq.token) ts crit r.rq.routeAsLwt).map (sharded (rc.toCluster r.rq.token)) := by
+        intro crit t hs hm
+        exact List.mem_map.mpr ⟨t.1, hm, hs.symm⟩
+      have sh_of : ∀ t : Target, t = sharded (rc.toCluster r.rq.token) t.1 → ∃ sh, t.2 = some sh := by
+        intro t hs; rw [hs]; exact ⟨_, rfl⟩
+      refine ⟨?_, ?_⟩
+      · intro d hd hne
+        obtain ⟨t, hh, hs, ht⟩ := h1 d hd (ne_of _ hne)
+        exact mk_good t _ (by rw [hplan]; exact hh) (mem_of _ t hs ht) (sh_of t hs)
+      · intro hperm hne
+        obtain ⟨t, hh, hs, ht⟩ := h2 hperm (ne_of _ hne)
+        rcases ht with ht | ⟨d, hd, ht⟩
+        · obtain ⟨a, ha, hg⟩ := mk_good t _ (by rw [hplan]; exact hh) (mem_of _ t hs ht) (sh_of t hs)
+          exact ⟨a, ha, Or.inl hg⟩
+        · obtain ⟨a, ha, hg⟩ := mk_good t _ (by rw [hplan]; exact hh) (mem_of _ t hs ht) (sh_of t hs)
+          exact ⟨a, ha, Or.inr ⟨d, hd, hg⟩⟩
+
+/-! ### non-vacuity: C05's 7-node, 2-datacenter ring (node 2 down, node 7 disabled); node 3 has 4 shards; table
+`k1.t0` has tablets: [100, 200] on (node 3, shard 1), (node 5, shard 2) and [201, 300] on (node 4, shard 3) -/
+
+def exPeers : List Node := allNodes C05.exCluster
+
+def exTablets : List Tablets.Tablet :=
+  (C15.run [.insert (Tablets.Tablet.fromRaw 100 200 [(3, 1), (5, 2)] (translator exPeers)),
+            .insert (Tablets.Tablet.fromRaw 201 300 [(4, 3)] (translator exPeers))]).tablets
+
+def exRC : RCluster :=
+  { loc := C04.locOf C05.exRing [], keyspaces := [.nts [(0, 2), (1, 2)], .simple 3], disabled := [7], down := [2]
+    sharder := fun id => if id = 3 then some ⟨4, 0⟩ else none
+    peers := exPeers
+    tables := [((1, 0), exTablets)] }
+
+/-- ring table `k0.t0`, token 160 -/
+def exRingRq : RRequest := ⟨⟨.quorum, some 160, some 0, false, .any⟩, 0⟩
+/-- tablet table `k1.t0`, token 150 (inside the first tablet) -/
+def exTabRq : RRequest := ⟨⟨.quorum, some 150, some 1, false, .any⟩, 0⟩
+
+example : C05.WF (exRC.toCluster (some 160)) :=
+  ⟨⟨C05.exRing, [], by decide, rfl⟩, by
+    intro repf h
+    simp only [exRC, RCluster.toCluster, List.mem_cons, Strategy.nts.injEq, List.not_mem_nil, or_false, reduceCtorEq] at h
+    subst h; decide, by decide⟩
+
+-- ring: the live local replica is node 3 (rack 3, not the preferred rack 1); its shard is that of token 160 under node 3's sharder
+example : (liveReplicaTargets exRC C05.exCfg exRingRq (.dc 0)).map (fun t => (t.1.id, t.2)) = [(3, some 2)] ∧
+    computedShard (some ⟨4, 0⟩) 160 = 2 ∧
+    firstAttempt exRC (routePlan exRC C05.exCfg exRingRq C05.ρp1 C05.ρf1) 7 = some ⟨⟨3, some 0, some 3⟩, 2⟩ ∧
+    tokenAware (exRC.toCluster (some 160)) C05.exCfg exRingRq.rq = true := by decide
+-- tablets: the covering tablet names node 3 on shard 1 and node 5 on shard 2; node 3 is the local one. The shard is the
+-- TABLET's (1), not what node 3's sharder computes for token 150 (2)
+example : tabletsOf exRC exTabRq = some exTablets ∧
+    (tabletReplicas exRC exTablets 150 none).map (fun r => (r.1.id, r.2)) = [(3, 1), (5, 2)] ∧
+    (tabletReplicas exRC exTablets 150 (some 0)).map (fun r => (r.1.id, r.2)) = [(3, 1)] ∧
+    firstAttempt exRC (routePlan exRC C05.exCfg exTabRq C05.ρp1 C05.ρf1) 7 = some ⟨⟨3, some 0, some 3⟩, 1⟩ ∧
+    computedShard (exRC.sharder 3) 150 = 2 ∧
+    (tabletReplicas exRC exTablets 250 none).map (fun r => (r.1.id, r.2)) = [(4, 3)] ∧
+    tabletReplicas exRC exTablets 301 none = [] := by decide
+
 end ScyllaVerif.Props.C12
